@@ -357,3 +357,17 @@ Print Assumptions C15_processor_from_source_poll.
 Print Assumptions C15_processor_from_source_cleanup.
 Print Assumptions C15_processor_from_source_read.
 Print Assumptions C15_processor_from_source_channels.
+
+(* ---------- the daemon configures no After filter ----------
+   ReassemblyComplete returns without reporting anything when event.Timestamp.Before(s.after) — the [old] oracle of the
+   statements above.  The audit worker's closure in RunNamedPipe (regenerated into Gen/WorkerBodies.v, normalised by
+   Model/WorkerWiring.v) builds the processor from exactly the fields Audits, Logins, EventW, Health: After is the
+   zero time, so in the daemon [old] is constantly false and no record is skipped for its timestamp. *)
+From Coq Require Import String.
+From AM Require Import Model.WorkerWiring Gen.WorkerBodies Proofs.WorkerWiringTie.
+Theorem C15_no_time_filter_in_the_daemon :
+  exists fs, bind_opt (ret_of 2) (fun e => option_map fields_of (recv_of e)) = Some fs /\
+             List.length fs = 4 /\ ~ In "After"%string fs /\ In "Audits"%string fs /\ In "Logins"%string fs /\
+             In "EventW"%string fs /\ In "Health"%string fs.
+Proof. exact audit_processor_has_no_time_filter. Qed.
+Print Assumptions C15_no_time_filter_in_the_daemon.
